@@ -646,3 +646,50 @@ func c13r6(rc *core.RC) {
 		rc.Unknown("encoder/indent-depth-sites", token.NoPos, "found %d reads of Opcode.Indent outside the compiler (confirmed: 2 in encoder.go, 9+ per indent util, 3 per interpreter)", n)
 	}
 }
+
+// ---- C13.R7 sorted and unsorted map output are indented alike ----
+
+// In the two indenting helper packages a map member is written by appendMapKeyValue (sorted maps,
+// at OpMapEnd) or after appendMapKeyIndent (UnorderedMap, at OpMap/OpMapKey), and the closing brace by
+// appendMapEnd or appendObjectEnd. Both members of each pair must pass the same depth to appendIndent.
+func c13r7(rc *core.RC) {
+	p := rc.P
+	n := 0
+	for _, vm := range []string{"vm_indent", "vm_color_indent"} {
+		depthOf := func(name string) (core.Linear, *ast.FuncDecl) {
+			fd := p.Func(vm, name)
+			if fd == nil || fd.Body == nil {
+				return core.Linear{}, nil
+			}
+			info := p.Info(fd)
+			le := &core.LinearEval{Info: info}
+			var out core.Linear
+			ast.Inspect(fd.Body, func(m ast.Node) bool {
+				if c, ok := m.(*ast.CallExpr); ok && len(c.Args) == 3 {
+					// appendIndent is a package variable aliasing encoder.AppendIndent
+					if id, ok := c.Fun.(*ast.Ident); ok && id.Name == "appendIndent" {
+						out = le.Eval(c.Args[2])
+					}
+				}
+				return true
+			})
+			return out, fd
+		}
+		for _, pair := range [][3]string{{"appendMapKeyValue", "appendMapKeyIndent", "member"}, {"appendMapEnd", "appendObjectEnd", "closing-brace"}} {
+			a, fa := depthOf(pair[0])
+			b, fb := depthOf(pair[1])
+			key := vm + "." + pair[0] + "~" + pair[1] + "/" + pair[2] + "-depth"
+			if fa == nil || fb == nil || !a.OK || !b.OK {
+				rc.Unknown(key, token.NoPos, "helpers or their appendIndent depth not found")
+				continue
+			}
+			n++
+			rc.Touch(vm + "." + pair[0])
+			rc.Touch(vm + "." + pair[1])
+			rc.Check(a.Equal(b), key, fb.Pos(), "sorted path indents the %s with depth %s, UnorderedMap path with %s: UnorderedMap must change only the order of members", pair[2], a, b)
+		}
+	}
+	if n < 4 {
+		rc.Unknown("vm_indent/map-helpers", token.NoPos, "found %d helper pairs", n)
+	}
+}
